@@ -1,5 +1,5 @@
 """C15 -- dot segments are removed exactly when an authority is present."""
-from .common import run_model, run_progs, run_value_machine
+from .common import run_model, run_progs, run_value_machine, run_harvest
 
 FINISH = dict(rule="R1 MC_Dots: the stack machine of _path.py = the literal RFC 3986 5.2.4 buffer algorithm on every segment "
                    "sequence over 9 segment kinds up to the stated length (+ idempotence, no dot left, rooted, trailing slash); "
@@ -17,3 +17,4 @@ def run(out, sc, tier, seed):
     n = 12000 if tier == "quick" else 300000
     run_progs(out, sc, "C15", {"gen": "dots", "n": n, "seed": seed, "fields": FIELDS, "maxseg": 4 if tier == "quick" else 5},
               "dots")
+    run_harvest(out, sc, "C15")
